@@ -8,7 +8,10 @@
   abstracted to a range check against the calendar's `[min_days, max_days]` (a `DayRange`, passed
   in by the caller).  The error kind follows the code: the "small" path (|days| < 300) raises
   OverflowError, the day-number constructor raises ValueError.  `plus_years`/`plus_months` belong
-  to the calendar model (C09); `plusPeriod` takes the day number reached after them as an input.
+  to the calendar model (C09); `plusPeriod` here takes the day number reached after them as an input.
+  The same operations with the date as (calendar, year, month, day) and all four date steps inside
+  the model (`LocalDateTime.plusPeriodFull`, `LocalDate.plusPeriod`, `LocalTime.plusPeriodChecked`,
+  `Period` algebra) are in PyodaModel/TimeOfDay/Full.lean, over PyodaModel.DateArith.
 -/
 import PyodaModel.Prelude
 import PyodaModel.Elapsed
